@@ -361,10 +361,14 @@ impl Pool {
          *
          * o The client's current address as recorded in the client's current
          *   binding, ELSE */
-        if let Some(lease) = self
-            .conn
-            .query_row(
-                "SELECT
+        /* A client that roams between subnets can hold current bindings in several pools, so
+         * take the best one that is in the pool we are serving from, not merely the best one.
+         */
+        let current = {
+            let mut stmt = self
+                .conn
+                .prepare_cached(
+                    "SELECT
                address,
                expiry,
                start
@@ -374,33 +378,46 @@ impl Pool {
              AND expiry > ?2
              ORDER BY
               address=?3 DESC,
-              expiry DESC
-             LIMIT 1",
-                rusqlite::params![
-                    clientid,
-                    ts as u32,
-                    requested
-                        .map(|ip| ip.to_string())
-                        .unwrap_or_else(|| "".into())
-                ],
-                |row| {
-                    Ok(Some((
-                        row.get::<usize, String>(0)?,
-                        row.get::<usize, u32>(1)?,
-                        row.get::<usize, u32>(2)?,
-                    )))
-                },
-            )
-            .or_else(map_no_row_to_none)?
-            && let Ok(ip) = lease.0.parse::<std::net::Ipv4Addr>()
-            && addresses.contains(&ip)
-        {
+              expiry DESC",
+                )
+                .map_err(|e| Error::emit("Database query Error", &e))?;
+            let rows = stmt
+                .query_map(
+                    rusqlite::params![
+                        clientid,
+                        ts as u32,
+                        requested
+                            .map(|ip| ip.to_string())
+                            .unwrap_or_else(|| "".into())
+                    ],
+                    |row| {
+                        Ok((
+                            row.get::<usize, String>(0)?,
+                            row.get::<usize, u32>(1)?,
+                            row.get::<usize, u32>(2)?,
+                        ))
+                    },
+                )
+                .map_err(|e| Error::emit("Database query Error", &e))?;
+            let mut found = None;
+            for row in rows {
+                let lease = row.map_err(|e| Error::emit("Database query Error", &e))?;
+                if let Ok(ip) = lease.0.parse::<std::net::Ipv4Addr>()
+                    && addresses.contains(&ip)
+                {
+                    found = Some((ip, lease.2));
+                    break;
+                }
+            }
+            found
+        };
+        if let Some((ip, start)) = current {
             // We want leases to double in size.  But normally you renew your
             // lease at ½ the duration.  We don't want to always just double
             // the lease, because you can accidentally end up with a ridiculously
             // long lease if you renew rapidly.
             // So instead we just use 3*renew.
-            let expiry = (ts as u32).saturating_sub(lease.2).saturating_mul(3);
+            let expiry = (ts as u32).saturating_sub(start).saturating_mul(3);
             return Ok(Lease {
                 ip,
                 expire: std::time::Duration::from_secs(expiry.into()),
